@@ -263,46 +263,37 @@ def execute(ctx, case, circ, model, backend, det, bits, psi0, factory, rnd_fallb
     if any(queues.values()):
         ctx.violate("O_order", len(recorded), f"{backend}: operations never executed: { {k: v for k, v in queues.items() if v} }", sig)
         return False, 0, []
-    # ---- reference along the executed order
+    # ---- reference along the executed order, following the outcomes the backend recorded in the classical registers
+    # (robust against harmless changes of *when* the backend consults its RNG; the consult pattern is only a probe)
     taken = list(script.taken)
-    pos = [0]
-    problems = []
+    rec_out = []
+    for sp, creg in recorded:
+        if sp[0] == "m":
+            rec_out.append(creg[sp[3]])
+        elif sp[0] == "cc":
+            rec_out.append(creg[sp[6]])
 
     def chooser(k, rnd, p0):
-        if det != "probabilistic":
-            if not rnd:
-                return 0
-            return det
-        if backend == "stab":
-            if not rnd:
-                return 0
-            if pos[0] >= len(taken):
-                problems.append(("rng_not_consulted", f"measurement #{k} is random (p0={p0:.6f}) but the backend did not draw"))
-                return 0
-            v = taken[pos[0]][1]
-            pos[0] += 1
-            return v
-        # dm: consulted at every measurement, with probabilities
-        if pos[0] >= len(taken):
-            problems.append(("rng_not_consulted", f"measurement #{k}: density-matrix backend did not draw"))
-            return 0
-        site, v, p = taken[pos[0]]
-        pos[0] += 1
-        if p is None or abs(p[0] - p0) > 1e-7 or abs(p[0] + p[1] - 1) > 1e-7:
-            problems.append(("dm_probabilities", f"measurement #{k}: backend probabilities {p}, reference p0={p0:.9f}"))
         if not rnd:
-            return 0 if p0 > 0.5 else 1
-        return v
+            return 0
+        if det != "probabilistic":
+            return det
+        return 1 if (k < len(rec_out) and rec_out[k] == 1) else 0
 
     specs = [sp for sp, _ in recorded]
     ref, cfinal, trace, csnaps = run_reference(ne, np_, nc, specs, chooser, psi0)
-    if det == "probabilistic" and pos[0] != len(taken):
-        problems.append(("rng_consulted_extra", f"{len(taken) - pos[0]} outcome draws beyond the measurements the reference sees"))
+    n_rand = sum(1 for t in trace if t[3])
     if det != "probabilistic" and taken:
-        problems.append(("rng_consulted_extra", f"RNG consulted {len(taken)}x in forced mode {det}"))
-    for inv, msg in problems[:1]:
-        ctx.violate("M_" + inv, -1, f"{backend} det={det}: {msg}", sig)
-        return False, 0, []
+        ctx.probe("rng_consulted_in_forced_mode")
+    if det == "probabilistic":
+        consumed = len(script.used)
+        if consumed != n_rand:
+            ctx.probe("rng_consult_pattern_differs_from_random_measurements")
+        if backend == "dm":
+            ps = [t[2] for t in taken if t[2] is not None]
+            if len(ps) == len(trace) and any(abs(p[0] - t[4]) > 1e-7 for p, t in zip(ps, trace)):
+                # the property conditions on the outcomes drawn; the distribution they are drawn from is not part of it
+                ctx.probe("dm_probabilities_differ_from_reference")
     for (i, q, o, rnd, p0) in trace:
         if rnd and q < np_:
             ctx.probe("random_measurement_on_photon")
